@@ -8,6 +8,7 @@ import (
 	mrand "math/rand"
 	"os"
 	"runtime/debug"
+	"sigs.k8s.io/controller-runtime/pkg/client"
 	"strings"
 	"testing"
 	"testing/synctest"
@@ -221,10 +222,10 @@ func (s *Sim) onCommit(w *Write) {
 			s.EvLog.Lines = append(s.EvLog.Lines, "  # svc selector="+dumpJSON(w.New.(*corev1.Service).Spec.Selector))
 		} else if w.Key.GK == gkRS && w.New != nil {
 			rs := w.New.(*appsv1.ReplicaSet)
-			s.EvLog.Lines = append(s.EvLog.Lines, fmt.Sprintf("  # rs replicas=%d status=%s", *rs.Spec.Replicas, statusJSON(rs)))
+			s.EvLog.Lines = append(s.EvLog.Lines, fmt.Sprintf("  # rs replicas=%d minReady=%d status=%s", *rs.Spec.Replicas, rs.Spec.MinReadySeconds, statusJSON(rs)))
 		} else if isWorkloadGK(w.Key) && w.New != nil {
 			e, n, _ := s.exposure(w.New)
-			s.EvLog.Lines = append(s.EvLog.Lines, fmt.Sprintf("  # %s exposure=%d/%d gen=%d strategy=%s ctl=%v status=%s", w.Key, e, n, w.New.GetGeneration(), w.New.GetAnnotations()["rollouts.kruise.io/deployment-strategy"], controlledByUID(w.New), statusJSON(w.New)))
+			s.EvLog.Lines = append(s.EvLog.Lines, fmt.Sprintf("  # %s exposure=%d/%d gen=%d spec=%s strategy=%s ctl=%v status=%s", w.Key, e, n, w.New.GetGeneration(), specBrief(w.New), w.New.GetAnnotations()["rollouts.kruise.io/deployment-strategy"], controlledByUID(w.New), statusJSON(w.New)))
 		}
 		for _, v := range s.Violations[nv:] {
 			s.EvLog.Lines = append(s.EvLog.Lines, "  !! "+v.Property+" "+v.Sig+": "+firstLine(v.Detail))
@@ -297,6 +298,22 @@ func (s *Sim) guardOracle(where string, f func()) {
 
 func (s *Sim) finalSummary(sc *Scenario) string {
 	return s.abstractState()
+}
+
+func specBrief(o client.Object) string {
+	if d, ok := o.(*appsv1.Deployment); ok {
+		ms, mu := "", ""
+		if d.Spec.Strategy.RollingUpdate != nil {
+			if d.Spec.Strategy.RollingUpdate.MaxSurge != nil {
+				ms = d.Spec.Strategy.RollingUpdate.MaxSurge.String()
+			}
+			if d.Spec.Strategy.RollingUpdate.MaxUnavailable != nil {
+				mu = d.Spec.Strategy.RollingUpdate.MaxUnavailable.String()
+			}
+		}
+		return fmt.Sprintf("{paused:%v minReady:%d surge:%s unavail:%s}", d.Spec.Paused, d.Spec.MinReadySeconds, ms, mu)
+	}
+	return ""
 }
 
 func statusJSON(o interface{}) string {
